@@ -286,6 +286,14 @@ def fam_traditional(ctx, rng):
                   peak_frequencies=pf, cached=h._main_peak_frq)
         if amp.min() > 0:
             _mean_peak_check(ctx, h, "HvsrTraditional", f, r)
+            ok = np.flatnonzero(h.valid_peak_boolean_mask)
+            if ok.size >= 3 and rng.random() < 0.5:      # a direct mask edit, then ask again (no stale answer)
+                import copy
+                h2 = copy.deepcopy(h)        # (a copy, so that the history on h itself is not disturbed)
+                i = int(rng.choice(ok))
+                h2.valid_window_boolean_mask[i] = False
+                h2.valid_peak_boolean_mask[i] = False
+                _mean_peak_check(ctx, h2, "HvsrTraditional after a direct mask edit", f, r)
     ctx.describe(kind="HvsrTraditional", grid=gk, classes=[c[1] for c in ccs], frequency=f,
                  n_curves=m, history=[x[0] for x in hist])
     nontrivial_sig(ctx, "HvsrTraditional", gk, [c[1] for c in ccs][:4], f.size, [x[1] for x in hist])
@@ -312,9 +320,23 @@ def fam_azimuthal(ctx, rng):
             for i in range(h.n_curves):
                 judge_cached(ctx, f"azimuth {a} window {i}", f, h.amplitude[i], tuple(r), h._main_peak_frq[i],
                              h._main_peak_amp[i], None)
-        if all(np.any(h.valid_peak_boolean_mask) and np.array_equal(h.valid_peak_boolean_mask, h.valid_window_boolean_mask)
-               for h in az.hvsrs):
+        def usable():
+            return all(np.any(h.valid_peak_boolean_mask) and np.array_equal(h.valid_peak_boolean_mask, h.valid_window_boolean_mask)
+                       for h in az.hvsrs)
+        if usable():
             _mean_peak_check(ctx, az, "HvsrAzimuthal", f, r)
+        # accept masks changed directly on the per-azimuth objects (as the time-domain and manual rejections do), then the
+        # peak of the mean curve is asked again: it must describe the CURRENT mean curve (no stale cached answer)
+        for _ in range(int(rng.integers(0, 3))):
+            h = az.hvsrs[int(rng.integers(0, naz))]
+            ok = np.flatnonzero(h.valid_peak_boolean_mask)
+            if ok.size >= 2:
+                i = int(rng.choice(ok))
+                h.valid_window_boolean_mask[i] = False
+                h.valid_peak_boolean_mask[i] = False
+                hist.append((r, "mask-edit"))
+                if usable():
+                    _mean_peak_check(ctx, az, "HvsrAzimuthal after a direct mask edit", f, r)
     ctx.describe(kind="HvsrAzimuthal", grid=gk, classes=classes, n_azimuths=naz, history=[x[0] for x in hist])
     nontrivial_sig(ctx, "HvsrAzimuthal", gk, classes[:2], f.size, [x[1] for x in hist])
 
